@@ -365,6 +365,47 @@ def parser_conformance(chk: core.Check, tier: str, seed: int) -> None:
     common.judge(chk, recs, "parser", what="Trace: compile() outcome / error class / AST vs Parser!ImplCompile", sig=sig)
 
 
+# ------------------------------------------------------------------------------------------
+# part 5: the helper API: JSONPathNodeList.values / paths / items / empty, JSONPathNode.root,
+# JSONPathQuery.singular_query / empty
+# ------------------------------------------------------------------------------------------
+def api_surface(chk: core.Check, tier: str, seed: int) -> None:
+    import random  # noqa: PLC0415
+
+    from .. import corpus, gen  # noqa: PLC0415
+    from . import common  # noqa: PLC0415
+
+    jp = core.import_repo()
+    rng = random.Random(seed)
+    docs = [gen.rand_doc(rng) for _ in range(12 if tier == "quick" else 60)] + [{"a": [1, {"b": 2}], "b": {"a": "x"}}, [[1, 2], [3]], 5, "s", None, {}, []]
+    qs = list(dict.fromkeys(corpus.SEEDS + common.ROOT_QUERIES + corpus.valid_candidates(rng, 300 if tier == "quick" else 5000)))
+    recs = []
+    for q in qs:
+        try:
+            cq = jp.compile(q)
+        except jp.JSONPathError:
+            continue
+        for doc in rng.sample(docs, 2):
+            try:
+                edoc = core.enc_value(doc)
+            except core.Unrepresentable:
+                continue
+            rec = {"op": "api", "q": core.enc_text(q), "doc": edoc, "singular": bool(cq.singular_query()), "qempty": bool(cq.empty()),
+                   "out": "ok", "lempty": True, "paths": [], "helpers_ok": True}
+            try:
+                nl = cq.find(doc)
+                rec["lempty"] = bool(nl.empty())
+                rec["paths"] = [core.enc_text(p) for p in nl.paths()]
+                ok = nl.values() == [n.value for n in nl] and all(a is b for a, b in zip(nl.values(), [n.value for n in nl]))
+                ok = ok and nl.items() == [(n.path(), n.value) for n in nl] and all(n.root is doc for n in nl)
+                rec["helpers_ok"] = bool(ok)
+            except jp.JSONPathError:
+                rec["out"] = "raise"
+            recs.append(rec)
+    chk.notes["api_records"] = len(recs)
+    common.judge(chk, recs, "api", what="Trace: node list / query helper API vs the specification")
+
+
 _run_tokenstream = run
 
 
@@ -373,3 +414,4 @@ def run(chk: core.Check, tier: str, seed: int) -> None:  # noqa: F811
     suite_traces(chk)
     lexer_traces(chk, tier, seed)
     parser_conformance(chk, tier, seed)
+    api_surface(chk, tier, seed)
